@@ -49,7 +49,7 @@ gate.release()                          # first line
 t.join(3)
 res["returned_after_first_line_only"] = not t.is_alive()
 gate.release()                          # second line
-t.join(10)
+t.join(40)
 res["returned"] = not t.is_alive()
 sys.stdout = real_out
 print(json.dumps(res)); sys.stdout.flush()
